@@ -871,7 +871,9 @@ def v_contains(m, k):
     if isinstance(t, SetTy):
         return mkbool(z3.Select(m.e, coerce(k, t.elem)))
     if isinstance(t, SeqTy):
-        return mkbool(z3.Contains(m.e, z3.Unit(coerce(k, t.elem))))
+        # membership as an index: exists j. 0 <= j < len /\ seq[j] == x  (friendlier to instantiation than seq.contains)
+        j = z3.Int(fresh_name("mj"))
+        return mkbool(z3.Exists([j], z3.And(j >= 0, j < z3.Length(m.e), m.e[j] == coerce(k, t.elem))))
     raise PyvcUnsupported(f"in on {t}")
 
 
